@@ -82,7 +82,7 @@ func init() {
 			}
 			return jobs
 		},
-		MinCases: map[string]int{"quick": 60, "thorough": 200},
+		MinCases:    map[string]int{"quick": 60, "thorough": 200},
 		Assumptions: []string{"liveness is decided as bounded progress within the bound the statement itself gives (lifetime of the order; ten intervals when no replacement exists)"}})
 	check.RegisterSpec(&check.Spec{Prop: "C18", Level: "exploration",
 		Rule: "a lifecycle walk (with block rewards, debts, renewals, migrations, in-flight orders, pending schedules, fault reports and recoveries by a fishman) runs to a seeded point; the application state is exported, validated with ModuleBasics.ValidateGenesis and fed to InitChain of a fresh application; every raw key/value pair of the six custom stores and every module-account balance is compared; then both chains receive the identical continuation (same blocks and signed transactions, recorded from the original) and are compared again. A case is the bucketed shape of the exported state (orders, shards, models, pending timeouts/expiries, debts, fault rows, fishing rewards, in-flight orders); distinct_nontrivial counts distinct shapes.",
@@ -110,7 +110,7 @@ func init() {
 			}
 			return jobs
 		},
-		MinCases: map[string]int{"quick": 3, "thorough": 10},
+		MinCases:    map[string]int{"quick": 3, "thorough": 10},
 		Assumptions: []string{"stores are compared by raw key/value iteration of the six custom store keys; SDK module state (bank, staking, auth) is compared only through module-account balances and the continuation's effects"}})
 	monitorFactories["C19"] = func() []world.Monitor { return []world.Monitor{&C19{}} }
 	monitorFactories["C20"] = func() []world.Monitor { return []world.Monitor{&C20{}} }
@@ -161,7 +161,7 @@ func init() {
 				{"leader": "didreg", "plans": "plain,clock3600,clock-86400,noise-1", "ops": "120"},
 				{"leader": "life:mixed", "plans": "plain,plain-2,clock3600,noise-1", "ops": "30"},
 			}, c01thorough),
-		MinCases: map[string]int{"quick": 6, "thorough": 12},
+		MinCases:    map[string]int{"quick": 6, "thorough": 12},
 		Assumptions: []string{"only amd64 is available: cross-architecture floating point (Node.Reputation is float32) cannot be observed", "SDK-internal races (baseapp, params) are counted but not attributed to this repository"}})
 	c03plans := "restart1,restart3,crash1,crash2"
 	var c03thorough []map[string]string
@@ -184,7 +184,7 @@ func init() {
 				{"leader": "staking", "plans": c03plans, "ops": "70"},
 				{"leader": "didreg", "plans": "restart1,crash1", "ops": "60"},
 			}, c03thorough),
-		MinCases: map[string]int{"quick": 4, "thorough": 8},
+		MinCases:    map[string]int{"quick": 4, "thorough": 8},
 		Assumptions: []string{"a restart is a new OS process over the same goleveldb directory; the leader runs in one process without interruption"}})
 	monitorFactories["C02"] = func() []world.Monitor { return []world.Monitor{&C02{}} }
 	check.RegisterSpec(&check.Spec{Prop: "C02", Level: "exploration",
@@ -227,8 +227,8 @@ func init() {
 			}
 			return jobs
 		},
-		Post:     c02Post,
-		MinCases: map[string]int{"quick": 40, "thorough": 80},
+		Post:        c02Post,
+		MinCases:    map[string]int{"quick": 40, "thorough": 80},
 		Assumptions: []string{"non-termination is decided by a CPU-time budget far above any terminating call (evidence, not proof)", "single-denomination genesis files built by the harness"}})
 	c15life := lifeJobs("C15", 2, 16, nil)
 	check.RegisterSpec(&check.Spec{Prop: "C15", Level: "exploration",
@@ -248,7 +248,7 @@ func init() {
 			}
 			return jobs
 		},
-		MinCases: map[string]int{"quick": 20, "thorough": 40},
+		MinCases:    map[string]int{"quick": 20, "thorough": 40},
 		Assumptions: []string{"eligibility is evaluated on the state read immediately before the transaction / end block"}})
 	check.RegisterSpec(&check.Spec{Prop: "C19", Level: "exploration",
 		Rule:        "seeded sequences of report / recover messages by {three fishmen, ordinary node, non-node, provider} against stored shards with contents {matching, wrong order, wrong data id, wrong shard, the order's own commit id, shard of another provider, data id of another order, provider mismatch, duplicates, expired targets}, interleaved with block advance across 600-block penalty ticks and shard expiry; the oracle diffs the raw fault table, all balances, orders, shards and pledges around every message. A case is (message, reporter class / content class, accepted, table changed); distinct_nontrivial counts distinct cases.",
@@ -315,9 +315,80 @@ func init() {
 		Jobs:        lifeJobs("C13", 5, 64, nil),
 		MinCases:    map[string]int{"quick": 10, "thorough": 30},
 		Assumptions: []string{"state is read through the keepers' own getters over the committed multistore", "workloads reach only the states the seeded walks produce"}})
-	for _, id := range []string{"C04", "C05", "C06", "C07", "C08", "C11"} {
-		check.RegisterSpec(&check.Spec{Prop: id, Level: "exploration", Rule: "lifecycle walks (draft)", Jobs: lifeJobs(id, 5, 64, nil), MinCases: map[string]int{"quick": 4, "thorough": 8}})
+	check.Register("recreate", scnRecreate)
+	withExtra := func(base func(string, int64) []check.Job, extra func(tier string, seed int64) []check.Job) func(string, int64) []check.Job {
+		return func(tier string, seed int64) []check.Job { return append(base(tier, seed), extra(tier, seed)...) }
 	}
+	lifeRule := "seeded random walks over the order lifecycle — store (sizes around the 1e-6 price rounding, replica 1-3, durations 3600-6000, sponsored payment, owner-submitted + Ready), staggered completion with silent providers, update, force-push, renew (several in a row, shorter and longer), terminate at every phase, cancel, migrate, claim, capacity add/remove, a provider without liquid balance (debt paths) — with block advance to just before / at / after every scheduled height and a final drain across all schedules; five weight profiles. "
+	check.RegisterSpec(&check.Spec{Prop: "C04", Level: "exploration",
+		Rule:        lifeRule + "The monitor decides every store/renew charge against the quote and the rightful payer, classifies every transfer touching the order/market escrows, keeps a reference income per provider (unit price x bytes x blocks over observed holdings) and a conservation balance with a dust bound of one coin per charge/refund settlement. A case is a charge shape (size, replicas, sponsored), an ending path (expiry, rotation to renewal, terminate, cancel, timeout-cancel, replica reduction, force-push) or a claim class; distinct_nontrivial counts distinct cases.",
+		Jobs:        lifeJobs("C04", 5, 64, nil),
+		MinCases:    map[string]int{"quick": 12, "thorough": 25},
+		Assumptions: []string{"bank transfer events are complete; prices are exact in 18 decimals"}})
+	check.RegisterSpec(&check.Spec{Prop: "C05", Level: "exploration",
+		Rule: lifeRule + "Plus recipes that cancel / time out / terminate and then re-create the same data id. For every order that ends without a completed shard the monitor compares refund vs charge, existence of order and shards, provider rows across the cancel, and the model against its snapshot before the store (or its absence incl. alias and schedule entry). A case is (ending by tx or end block, existing model or new, re-assignments so far, operation, order status); distinct_nontrivial counts distinct cases.",
+		Jobs: withExtra(lifeJobs("C05", 5, 48, nil), func(tier string, seed int64) []check.Job {
+			var jobs []check.Job
+			n := 1
+			if tier == "thorough" {
+				n = 6
+			}
+			for i := 0; i < n; i++ {
+				for _, m := range []string{"cancel", "timeout", "terminate-inflight"} {
+					jobs = append(jobs, check.Job{Prop: "C05", Scenario: "recreate", Seed: seed*373587883 + int64(len(jobs)), Args: map[string]string{"mode": m}})
+				}
+			}
+			return jobs
+		}),
+		MinCases:    map[string]int{"quick": 4, "thorough": 8},
+		Assumptions: []string{"the payer is the account debited by the store transaction"}})
+	check.RegisterSpec(&check.Spec{Prop: "C06", Level: "exploration",
+		Rule: lifeRule + "Plus a recipe with a sponsor-paid order whose owner DID has no payment address (refund into the did module). On every block-boundary snapshot the four escrow inequalities are evaluated against liabilities recomputed from the exported records; entitled payouts that fail are flagged. A case is the bucketed shape of a state (orders, live shards, queued renewals, debts, rewards, DID balances); distinct_nontrivial counts distinct shapes.",
+		Jobs: withExtra(lifeJobs("C06", 5, 48, nil), func(tier string, seed int64) []check.Job {
+			return []check.Job{{Prop: "C06", Scenario: "sponsored-nopay", Seed: seed*472882027 + 1}}
+		}),
+		MinCases:    map[string]int{"quick": 8, "thorough": 16},
+		Assumptions: []string{"liabilities are recomputed from exported module state"}})
+	check.RegisterSpec(&check.Spec{Prop: "C07", Level: "exploration",
+		Rule:        lifeRule + "For every transaction, begin block and end block the monitor compares, per provider, coins moved to/from the node escrow with the change of recorded collateral net of debt, checks recipients, withdrawal against free capacity of the pre-state, and row bounds. A case is (operation, debts present, number of node-escrow flows) or (withdrawal: leaves zero free / capacity in use); distinct_nontrivial counts distinct cases.",
+		Jobs:        lifeJobs("C07", 5, 48, nil),
+		MinCases:    map[string]int{"quick": 10, "thorough": 20},
+		Assumptions: []string{"reward claims are decided by C08"}})
+	check.RegisterSpec(&check.Spec{Prop: "C08", Level: "exploration",
+		Rule: "lifecycle walks with block rewards switched on (reward 1000, pledge mostly below baseline => baseline-limited minting; capacity changes and claims at random heights) plus a parameter sweep (block reward from 1 to above the 4e14 total, baselines, APYs, halving/adjustment periods from 11). Per block: supply delta vs node-module mint, cap by reward >> age and baseline rate, no mint without pledge, counter == minted; per claim: whole-coin part less debt; per provider: claimed+claimable vs exact pro-rata share in rationals. A case is (mint: age, below baseline, providers) or (claim: positive, with debt); distinct_nontrivial counts distinct cases.",
+		Jobs: func(tier string, seed int64) []check.Job {
+			var jobs []check.Job
+			n, cfg := 3, 6
+			if tier == "thorough" {
+				n, cfg = 24, 120
+			}
+			for i := 0; i < n; i++ {
+				jobs = append(jobs, check.Job{Prop: "C08", Scenario: "life", Seed: seed*573259391 + int64(i), Args: map[string]string{"profile": "rewards"}})
+			}
+			for i := 0; i < cfg; i++ {
+				jobs = append(jobs, check.Job{Prop: "C08", Scenario: "config", Seed: seed*573259391 + 1000 + int64(i), Args: map[string]string{"config": fmt.Sprint(int(seed)*13 + i), "ops": "16"}})
+			}
+			return jobs
+		},
+		MinCases:    map[string]int{"quick": 4, "thorough": 8},
+		Assumptions: []string{"halving age taken from the exported GetRewardAge and required to be non-decreasing"}})
+	check.RegisterSpec(&check.Spec{Prop: "C11", Level: "exploration",
+		Rule: lifeRule + "Plus recipes: cancel / timeout / terminate (completed and in flight) followed by re-creation of the same data id and advance across the old and new scheduled heights. The monitor builds the reference timetable from accepted requests and checks existence, provider, capacity accounting, model presence and release at every block boundary. A case is a release class (renewals, migrated, term bucket), an early ending (terminate, force-push), a migration hand-over or a re-creation mode; distinct_nontrivial counts distinct cases.",
+		Jobs: withExtra(lifeJobs("C11", 5, 64, nil), func(tier string, seed int64) []check.Job {
+			var jobs []check.Job
+			n := 1
+			if tier == "thorough" {
+				n = 8
+			}
+			for i := 0; i < n; i++ {
+				for _, m := range []string{"cancel", "timeout", "terminate", "terminate-inflight"} {
+					jobs = append(jobs, check.Job{Prop: "C11", Scenario: "recreate", Seed: seed*674506081 + int64(len(jobs)), Args: map[string]string{"mode": m}})
+				}
+			}
+			return jobs
+		}),
+		MinCases:    map[string]int{"quick": 6, "thorough": 12},
+		Assumptions: []string{"requested durations are those of the signed proposals"}})
 	c16life := lifeJobs("C16", 3, 40, nil)
 	check.RegisterSpec(&check.Spec{Prop: "C16", Level: "exploration",
 		Rule: "lifecycle walks (concurrent updates through two gateways, cancels, timeouts, force-pushes) plus the authorization matrix with commit-id shapes {exact base, empty base, substring/prefix of the latest, data id embedded, separators only}; the oracle keeps an id registry and, per model, compares each accepted update's stated base with the last committed version and each history change with append-one / replace-last. A case is (accepted update: base shape, operation, model status) or (history change kind, length); distinct_nontrivial counts distinct cases.",
@@ -379,6 +450,7 @@ func scnLife(ctx *check.JobCtx) {
 	p := lifeProfile(ctx.Arg("profile", "mixed"))
 	p.Ops = int(ctx.ArgInt("ops", int64(p.Ops)))
 	p.MaxHeight = ctx.ArgInt("maxh", p.MaxHeight)
+	p.DrainCap = ctx.ArgInt("draincap", 13000)
 	if ctx.Arg("bigtimeout", "") == "1" {
 		p.BigTimeout = true
 	}
